@@ -112,9 +112,13 @@ func UnmarshalAttribute(attr *api.Attribute) (bgp.PathAttributeInterface, error)
 		return attr, nil
 	case *api.Attribute_MpUnreach:
 		rf := ToFamily(a.MpUnreach.Family)
-		nlris, err := UnmarshalNLRIs(rf, a.MpUnreach.Nlris)
-		if err != nil {
-			return nil, err
+		var nlris []bgp.NLRI
+		if len(a.MpUnreach.Nlris) > 0 { // none: the End-of-RIB marker
+			var err error
+			nlris, err = UnmarshalNLRIs(rf, a.MpUnreach.Nlris)
+			if err != nil {
+				return nil, err
+			}
 		}
 		l := make([]bgp.PathNLRI, 0, len(nlris))
 		for _, n := range nlris {
